@@ -221,6 +221,28 @@ def gen_tree(rng, pl, tier="quick", layout=None, allow_single=True, min_files=1,
     return {"name": name, "single": False, "files": files, "dirs": dirs, "layout": layout, "links": links}
 
 
+def add_dir_alias(rng, tree):
+    """Adds a directory symbolic link that is a second name for a directory of the tree (sibling or cousin, never a
+    cycle).  Returns True when the tree has a directory to alias."""
+    if tree["single"]:
+        return False
+    dirs = sorted({"/".join(f[0].split("/")[:k]) for f in tree["files"] for k in range(1, f[0].count("/") + 1)})
+    if not dirs or len(tree["files"]) > 200:
+        return False
+    target = rng.choice(dirs)
+    parent = rng.choice([os.path.dirname(target), os.path.dirname(target), ""])
+    existing = {f[0] for f in tree["files"]} | set(dirs) | set(tree["dirs"])
+    for _ in range(4):
+        nm = rng.choice(["0-alias", "zz-alias", "latest", "Mirror", "0", "~same"])
+        newrel = (parent + "/" if parent else "") + nm
+        if newrel in existing or (target + "/").startswith(newrel + "/"):
+            continue
+        tree.setdefault("links", []).append([newrel, target, "symdir"])
+        tree["layout"] += "+dir-alias"
+        return True
+    return False
+
+
 def tree_root(base, tree):
     return os.path.join(base, tree["name"])
 
